@@ -86,6 +86,24 @@ PROBES = [
 ]
 
 
+def _ad_inputs():
+    h = "".join("%02x" % (0x10 + k) for k in range(32))
+    cose = "a5010203262001215820" + "aa" * 32 + "225820" + "bb" * 32
+    aag = "".join("%02x" % (0xc0 + k) for k in range(16))
+
+    def hdr(fl):
+        return h + "%02x" % fl + "01020304"
+    return [h + "0101020304"[:8], hdr(0x02), hdr(0x20), hdr(0x01), hdr(0x04), hdr(0x1d), hdr(0x40), hdr(0x80), hdr(0xc1),
+            hdr(0x41) + aag + "0005" + "0102030405" + cose + "|whole",
+            hdr(0x41) + aag + "0100" + "7e" * 256 + cose + "|whole",
+            hdr(0x41) + aag + "1388" + "5a" * 5000 + cose + "|whole",
+            hdr(0x41) + aag + "0005" + "0102", hdr(0x41) + aag[:10],
+            hdr(0x81) + "a0|whole", hdr(0xc1) + aag + "0001" + "09" + cose + "a0|whole"]
+
+
+PROBES.append((re.compile(r"^ad::(AuthenticatorData::from_slice|AttestedCredentialData::from_reader)::"), "authdata-decode", _ad_inputs()))
+
+
 CEREMONY = {"C04": ["c04"], "C05": ["c05"], "C07": ["c07"], "C08": ["c08"], "C11": ["c11"], "C02": ["c07", "c11"], "C03": ["c05"]}
 
 
